@@ -68,6 +68,9 @@ static unsigned g_nmalloc, g_nfree, g_nsend, g_nsleep, g_nevent;
 static long     g_live_blocks;
 static unsigned long g_live_bytes;
 
+static void *g_ctx_guard;      /* when set: every context-taking port call must carry this interface context (C17) */
+#define V_CTX(ctx) V_ASSERT(g_ctx_guard == 0 || (ctx) == g_ctx_guard, "C17: platform calls carry the context of the interface the frame arrived on")
+
 /* harness hooks */
 static void on_send(void *ctx, const uint8_t *f, size_t n);
 static void on_sleep(uint32_t ms);
@@ -148,6 +151,7 @@ void lltd_port_sleep_ms(uint32_t ms) { g_nsleep++; on_sleep(ms); g_nevent++; }
 
 int lltd_port_send_frame(void *iface_ctx, const void *frame, size_t frame_len) {
     unsigned idx = g_nsend++;
+    V_CTX(iface_ctx);
 #ifdef VERIF_CBMC
     __CPROVER_assert(frame != 0 && __CPROVER_r_ok(frame, frame_len), "send_frame: frame readable for frame_len");
 #endif
@@ -158,6 +162,7 @@ int lltd_port_send_frame(void *iface_ctx, const void *frame, size_t frame_len) {
 }
 
 int lltd_port_get_mtu(void *iface_ctx, size_t *out_mtu) {
+    V_CTX(iface_ctx);
     vcfg *c = (vcfg *)iface_ctx;
     if (c->mtu_fail) return -1;
     *out_mtu = c->mtu;
@@ -222,47 +227,58 @@ size_t lltd_port_get_hw_id(void *dst, size_t dst_len) {
 }
 
 int lltd_port_get_mac_address(void *iface_ctx, ethernet_address_t *out_mac) {
+    V_CTX(iface_ctx);
     vcfg *c = (vcfg *)iface_ctx;
     if (c->mac_fail) return -1;
     memcpy(out_mac->a, c->mac, 6);
     return 0;
 }
 
-uint32_t lltd_port_get_characteristics_flags(void *iface_ctx) { return ((vcfg *)iface_ctx)->flags; }
+uint32_t lltd_port_get_characteristics_flags(void *iface_ctx) { V_CTX(iface_ctx); return ((vcfg *)iface_ctx)->flags; }
 
 int lltd_port_get_if_type(void *iface_ctx, uint32_t *out) {
+    V_CTX(iface_ctx);
     vcfg *c = (vcfg *)iface_ctx; if (c->iftype_fail) return -1; *out = c->iftype; return 0;
 }
 int lltd_port_get_ipv4_address(void *iface_ctx, uint32_t *out) {
+    V_CTX(iface_ctx);
     vcfg *c = (vcfg *)iface_ctx; if (c->ipv4_fail) return -1; *out = c->ipv4; return 0;
 }
 int lltd_port_get_ipv6_address(void *iface_ctx, uint8_t out[16]) {
+    V_CTX(iface_ctx);
     vcfg *c = (vcfg *)iface_ctx; if (c->ipv6_fail) return -1;
     memcpy(out, c->ipv6, 16);
     return 0;
 }
 int lltd_port_get_link_speed_100bps(void *iface_ctx, uint32_t *out) {
+    V_CTX(iface_ctx);
     vcfg *c = (vcfg *)iface_ctx; if (c->speed_fail) return -1; *out = c->speed; return 0;
 }
 int lltd_port_get_wifi_mode(void *iface_ctx, uint8_t *out) {
+    V_CTX(iface_ctx);
     vcfg *c = (vcfg *)iface_ctx; if (c->wifi_fail) return -1; *out = c->wifi_mode; return 0;
 }
 int lltd_port_get_bssid(void *iface_ctx, uint8_t out[6]) {
+    V_CTX(iface_ctx);
     vcfg *c = (vcfg *)iface_ctx; if (c->bssid_fail) return -1;
     memcpy(out, c->bssid, 6);
     return 0;
 }
 size_t lltd_port_get_ssid(void *iface_ctx, void *dst, size_t dst_len) {
+    V_CTX(iface_ctx);
     vcfg *c = (vcfg *)iface_ctx;
     return v_copy_name(dst, dst_len, c->ssid, c->ssid_len, c->ssid_ret_full);
 }
 int lltd_port_get_wifi_max_rate_0_5mbps(void *iface_ctx, uint16_t *out) {
+    V_CTX(iface_ctx);
     vcfg *c = (vcfg *)iface_ctx; if (c->rate_fail) return -1; *out = c->rate; return 0;
 }
 int lltd_port_get_wifi_rssi_dbm(void *iface_ctx, int8_t *out) {
+    V_CTX(iface_ctx);
     vcfg *c = (vcfg *)iface_ctx; if (c->rssi_fail) return -1; *out = c->rssi; return 0;
 }
 int lltd_port_get_wifi_phy_medium(void *iface_ctx, uint32_t *out) {
+    V_CTX(iface_ctx);
     vcfg *c = (vcfg *)iface_ctx; if (c->phy_fail) return -1; *out = c->phy; return 0;
 }
 
